@@ -216,13 +216,23 @@ def d_fit_lin(ctx, fits):
     rets = [s for s in statements(f) if isinstance(s, ast.Return) and mod_enclosing(fits, s) is f]
     table = {}
     for s in statements(f):
-        if isinstance(s, ast.Assign) and isinstance(s.value, ast.Call) and call_name(s.value) in ('total_least_squares', 'least_squares') and fits.enclosing_func(s) is f:
+        if fits.enclosing_func(s) is not f:
+            continue
+        # the fitter is either called in the branch or selected there (`fit = total_least_squares`) and called afterwards
+        picked = None
+        if isinstance(s, (ast.Assign, ast.Return)) and s.value is not None:
+            for c in ast.walk(s.value):
+                if isinstance(c, ast.Call) and call_name(c) in ('total_least_squares', 'least_squares'):
+                    picked = call_name(c)
+            if picked is None and isinstance(s, ast.Assign) and isinstance(s.value, ast.Name) and s.value.id in ('total_least_squares', 'least_squares'):
+                picked = s.value.id
+        if picked:
             g = ' && '.join(('' if pol else 'NOT ') + unparse(t) for t, pol in guards_of(fits, s, stop=f))
-            table[call_name(s.value)] = g
+            table[picked] = g
     ok1 = 'total_least_squares' in table and table['total_least_squares'] == 'all((isinstance(n, Obs) for n in x))'
     ctx.check(rule, 'fits.py:fit_lin#obs-x', ok1, 'all-Obs abscissae -> total least squares', 'dispatch: %s' % table)
     g2 = table.get('least_squares', '')
-    ok2 = g2.startswith('NOT all((isinstance(n, Obs) for n in x))') and 'isinstance(n, float)' in g2 and 'np.ndarray' in g2
+    ok2 = g2.startswith('NOT all((isinstance(n, Obs) for n in x))') and ('isinstance(n, float)' in g2 or 'isinstance(n, (float, int))' in g2 or 'isinstance(n, (int, float))' in g2) and 'np.ndarray' in g2
     ctx.check(rule, 'fits.py:fit_lin#number-x', ok2, 'numbers / ndarray -> ordinary least squares', 'dispatch: %s' % table)
     rs = [s for s in statements(f) if isinstance(s, ast.Raise) and fits.enclosing_func(s) is f]
     ctx.check(rule, 'fits.py:fit_lin#else-raises', len(rs) == 1 and 'TypeError' in unparse(rs[0]), 'anything else raises TypeError', 'raises: %s' % [unparse(r) for r in rs])
